@@ -48,29 +48,89 @@ def _inlinable(fn: ast.FunctionDef, is_method: bool) -> Optional[str]:
     body = _body_without_doc(fn)
     if not body:
         return "empty"
-    rets = 0
+    nested_nodes = {id(x) for d in ast.walk(fn) if d is not fn and isinstance(d, _FUNCS + (ast.Lambda,)) for x in ast.walk(d) if x is not d}
     for n in ast.walk(fn):
         if n is fn:
             continue
-        if isinstance(n, _FUNCS + (ast.Lambda, ast.ClassDef)) and isinstance(n, _FUNCS + (ast.ClassDef,)):
-            return "nested scope"
-        if isinstance(n, (ast.Yield, ast.YieldFrom, ast.Await, ast.Global, ast.Nonlocal)):
-            return "generator / global"
-        if isinstance(n, ast.Return):
-            rets += 1
+        if isinstance(n, ast.ClassDef):
+            return "nested class"
+        if isinstance(n, (ast.Global, ast.Nonlocal)):
+            return "global / nonlocal"
+        if id(n) in nested_nodes:
+            continue                       # inside a nested function: its own returns / yields are its own business
+        if isinstance(n, (ast.Yield, ast.YieldFrom, ast.Await)):
+            return "generator"
         if isinstance(n, ast.Call) and isinstance(n.func, ast.Name) and n.func.id == fn.name:
             return "recursive"
         if isinstance(n, ast.Call) and isinstance(n.func, ast.Attribute) and n.func.attr == fn.name and isinstance(n.func.value, ast.Name) \
                 and n.func.value.id in ("self", "cls"):
             return "recursive"
-    if rets > 1 or (rets == 1 and not isinstance(body[-1], ast.Return)):
-        if not _tail_returns_only(body):
-            return "early return"
+    for n in ast.walk(fn):
+        if id(n) in nested_nodes and isinstance(n, ast.Call) and isinstance(n.func, ast.Name) and n.func.id == fn.name:
+            return "recursive"
+    # whether the returns are all in tail position is decided per call site, on the body specialised to the constant arguments
     return None
 
 
+def _own_walk(node):
+    """ast.walk that yields nested function / lambda nodes but does not enter them"""
+    stack = [node]
+    first = True
+    while stack:
+        n = stack.pop()
+        yield n
+        if not first and isinstance(n, _FUNCS + (ast.Lambda, ast.ClassDef)):
+            continue
+        first = False
+        stack.extend(ast.iter_child_nodes(n))
+
+
+def _has_own_return(st) -> bool:
+    return any(isinstance(n, ast.Return) for n in _own_walk_stmt(st))
+
+
+def _own_walk_stmt(st):
+    if isinstance(st, _FUNCS + (ast.ClassDef,)):
+        return iter(())
+    return _own_walk_first(st)
+
+
+def _own_walk_first(node):
+    stack = [node]
+    while stack:
+        n = stack.pop()
+        yield n
+        for ch in ast.iter_child_nodes(n):
+            if isinstance(ch, _FUNCS + (ast.Lambda, ast.ClassDef)):
+                continue
+            stack.append(ch)
+
+
 def _leaves(block) -> bool:
-    return bool(block) and isinstance(block[-1], (ast.Return, ast.Raise))
+    if not block:
+        return False
+    last = block[-1]
+    if isinstance(last, (ast.Return, ast.Raise)):
+        return True
+    if isinstance(last, ast.With):
+        return _leaves(last.body)
+    if isinstance(last, ast.If):
+        return _leaves(last.body) and _leaves(last.orelse)
+    return False
+
+
+def _prune_dead(block):
+    """drop the statements that follow one that always leaves the block"""
+    out = []
+    for st in block:
+        for fld in ("body", "orelse"):
+            b = getattr(st, fld, None)
+            if isinstance(b, list) and b and isinstance(b[0], ast.stmt) and isinstance(st, (ast.If, ast.With)):
+                setattr(st, fld, _prune_dead(b))
+        out.append(st)
+        if _leaves([st]):
+            break
+    return out
 
 
 def _tail_returns_only(block) -> bool:
@@ -82,18 +142,25 @@ def _tail_returns_only(block) -> bool:
             if not last:
                 return False
             continue
+        if isinstance(st, _FUNCS):
+            continue
         if isinstance(st, ast.If):
-            has_ret = any(isinstance(n, ast.Return) for n in ast.walk(st))
+            has_ret = _has_own_return(st)
             if not has_ret:
                 continue
             if not _tail_returns_only(st.body) or not _tail_returns_only(st.orelse):
                 return False
             # an arm that returns must end the arm; what follows the `if` runs only for the arms that do not leave
             for arm in (st.body, st.orelse):
-                if any(isinstance(n, ast.Return) for x in arm for n in ast.walk(x)) and not _leaves(arm):
+                if any(_has_own_return(x) for x in arm) and not _leaves(arm):
                     return False
             continue
-        if any(isinstance(n, ast.Return) for n in ast.walk(st)):
+        if isinstance(st, ast.With) and _has_own_return(st):
+            # a `with` in tail position whose own returns are in tail position: the value is computed inside the block either way
+            if not last or not _tail_returns_only(st.body) or not _leaves(st.body):
+                return False
+            continue
+        if _has_own_return(st):
             return False
     return True
 
@@ -106,11 +173,15 @@ def _eliminate_returns(block, build):
         if isinstance(st, ast.Return):
             out.append(build(st.value if st.value is not None else ast.Constant(value=None)))
             return out
-        if isinstance(st, ast.If) and any(isinstance(n, ast.Return) for n in ast.walk(st)):
+        if isinstance(st, ast.If) and _has_own_return(st):
             rest = list(block[i + 1:])
             body = list(st.body) + ([] if _leaves(st.body) else copy.deepcopy(rest))
             orelse = list(st.orelse) + ([] if _leaves(st.orelse) else copy.deepcopy(rest))
             new = ast.If(test=st.test, body=_eliminate_returns(body, build) or [ast.Pass()], orelse=_eliminate_returns(orelse, build))
+            out.append(ast.copy_location(new, st))
+            return out
+        if isinstance(st, ast.With) and _has_own_return(st):
+            new = ast.With(items=st.items, body=_eliminate_returns(list(st.body), build) or [ast.Pass()])
             out.append(ast.copy_location(new, st))
             return out
         out.append(st)
@@ -155,6 +226,31 @@ class _Subst(ast.NodeTransformer):
             return ast.copy_location(ast.Name(id=self.rename[node.id], ctx=node.ctx), node)
         return node
 
+    def _nested(self, node, params):
+        """a nested scope: names it binds itself shadow the helper's"""
+        own = set(params) | {n.id for n in ast.walk(node) if isinstance(n, ast.Name) and isinstance(n.ctx, ast.Store)}
+        inner = _Subst({k: v for k, v in self.mapping.items() if k not in own}, {k: v for k, v in self.rename.items() if k not in params})
+        return inner
+
+    def visit_FunctionDef(self, node):
+        a = node.args
+        params = [p.arg for p in a.posonlyargs + a.args + a.kwonlyargs] + ([a.vararg.arg] if a.vararg else []) + ([a.kwarg.arg] if a.kwarg else [])
+        node.decorator_list = [self.visit(d) for d in node.decorator_list]
+        a.defaults = [self.visit(d) for d in a.defaults]
+        a.kw_defaults = [self.visit(d) if d is not None else None for d in a.kw_defaults]
+        inner = self._nested(node, params)
+        node.body = [inner.visit(b) for b in node.body]
+        if node.name in self.rename:
+            node.name = self.rename[node.name]
+        return node
+
+    def visit_Lambda(self, node):
+        a = node.args
+        params = [p.arg for p in a.posonlyargs + a.args + a.kwonlyargs] + ([a.vararg.arg] if a.vararg else []) + ([a.kwarg.arg] if a.kwarg else [])
+        a.defaults = [self.visit(d) for d in a.defaults]
+        node.body = self._nested(node, params).visit(node.body)
+        return node
+
 
 def _bind(fn, call: ast.Call, is_method: bool, recv: Optional[ast.AST]):
     """parameter name -> argument expression (defaults filled in); None if the call cannot be bound statically"""
@@ -189,12 +285,27 @@ def _bind(fn, call: ast.Call, is_method: bool, recv: Optional[ast.AST]):
 
 
 def _stores(fn) -> Set[str]:
+    """names bound in fn's own scope (the names of nested functions included, their locals not)"""
     out = set()
-    for n in ast.walk(fn):
+    for n in _own_walk(fn):
         if isinstance(n, ast.Name) and isinstance(n.ctx, (ast.Store, ast.Del)):
             out.add(n.id)
         elif isinstance(n, ast.ExceptHandler) and n.name:
             out.add(n.name)
+        elif n is not fn and isinstance(n, _FUNCS):
+            out.add(n.name)
+    return out
+
+
+def _captured_params(fn) -> Set[str]:
+    """parameters of fn that a nested function / lambda reads (late-bound in the closure)"""
+    ps = {a.arg for a in _params(fn) + list(fn.args.kwonlyargs)}
+    out = set()
+    for d in ast.walk(fn):
+        if d is not fn and isinstance(d, _FUNCS + (ast.Lambda,)):
+            for n in ast.walk(d):
+                if isinstance(n, ast.Name) and n.id in ps:
+                    out.add(n.id)
     return out
 
 
@@ -210,7 +321,7 @@ def _pure(e) -> bool:
 
 
 def _mentions(stmts, name) -> int:
-    return sum(1 for st in stmts for n in ast.walk(st) if isinstance(n, ast.Name) and n.id == name)
+    return sum(1 for st in stmts for n in ast.walk(st) if (isinstance(n, ast.Name) and n.id == name) or (isinstance(n, _FUNCS) and n.name == name))
 
 
 def _sub_blocks(st):
@@ -283,6 +394,8 @@ def _tidy_inlined(blk, locals_):
                             for n in ast.walk(b):
                                 if isinstance(n, ast.Name) and n.id == s_:
                                     n.id = t_
+                                elif isinstance(n, _FUNCS) and n.name == s_:
+                                    n.name = t_
                         del block[k]
                         changed = True
                         break
@@ -329,6 +442,7 @@ class Inliner:
         self.tree = tree
         self.known = known
         self.counter = 0
+        self._single_binding: Dict[str, int] = {}
         self.inlined: List[Tuple[str, str]] = []            # (caller, helper)
 
     # ------------------------------------------------------------------ discovery
@@ -370,6 +484,15 @@ class Inliner:
         target_stmt_builder(E)"""
         pre = []
         mapping = {}
+        cap = _captured_params(fn)
+        for p_ in cap:
+            a = binding.get(p_)
+            # a closure of the helper sees the parameter as it was at the call; inlined, it sees the caller's variable: the same thing
+            # only if that variable is bound exactly once in the caller (or the argument is a constant)
+            if isinstance(a, ast.Constant):
+                continue
+            if not (isinstance(a, ast.Name) and self._single_binding.get(a.id, 0) == 1) or p_ in _stores(fn):
+                return None
         for p_, a in binding.items():
             if isinstance(a, _SIMPLE_ARG) and not (p_ in _stores(fn)):
                 mapping[p_] = a
@@ -389,8 +512,10 @@ class Inliner:
                 rename[p_] = mapping[p_].id
         sub = _Subst({k: v for k, v in mapping.items() if k not in rename}, rename)
         body = [_FoldIfExp().visit(sub.visit(copy.deepcopy(st))) for st in _body_without_doc(fn)]
-        body = _fold_constant_tests(body)
-        has_ret = any(isinstance(n, ast.Return) for st in body for n in ast.walk(st))
+        body = _prune_dead(_fold_constant_tests(body))
+        if not _tail_returns_only(body):
+            return None                  # this call site cannot be inlined value-preservingly
+        has_ret = any(_has_own_return(st) for st in body)
         locals_ = set(rename.values()) | (_stores(fn) - set(binding) - set(rename))
         if has_ret:
             body = _eliminate_returns(body, target_stmt_builder)
@@ -410,6 +535,15 @@ class Inliner:
                 if (cls, fn.name) in helpers and False:
                     return
                 caller_names = _names(fn)
+                self._single_binding = {}
+                for a_ in ast.walk(fn.args):
+                    if isinstance(a_, ast.arg):
+                        self._single_binding[a_.arg] = self._single_binding.get(a_.arg, 0) + 1
+                for n_ in _own_walk(fn):
+                    if isinstance(n_, ast.Name) and isinstance(n_.ctx, (ast.Store, ast.Del)):
+                        self._single_binding[n_.id] = self._single_binding.get(n_.id, 0) + 1
+                    elif n_ is not fn and isinstance(n_, _FUNCS):
+                        self._single_binding[n_.name] = self._single_binding.get(n_.name, 0) + 1
 
                 def do_block(stmts):
                     nonlocal did
@@ -441,6 +575,9 @@ class Inliner:
                                     new.value = e
                                     return new
                                 blk = self._inline_stmt_body(hfn, binding, caller_names, build)
+                                if blk is None:
+                                    out.append(st)
+                                    continue
                                 for b_ in blk:
                                     for sub_ in ast.walk(b_):
                                         if hasattr(sub_, "lineno") or isinstance(sub_, (ast.stmt, ast.expr)):
